@@ -321,6 +321,12 @@ fn handle_run(req: &Request, resp: &mut Response) -> bool {
                     let f = compiler::compile(&mut vm, text.to_string(), None).map_err(|e| format!("{:?}", e.messages()))?;
                     kept_functions.push(f);
                     Ok(())
+                } else if let Some(text) = rest.strip_prefix("compile_keep_in:") {
+                    // "module:source": compile a program for a module name of the host's choosing and keep it
+                    let (module, text) = text.split_once(':').ok_or("module:source expected")?;
+                    let f = compiler::compile(&mut vm, text.to_string(), Some(module)).map_err(|e| format!("{:?}", e.messages()))?;
+                    kept_functions.push(f);
+                    Ok(())
                 } else if let Some(k) = rest.strip_prefix("keep_global:") {
                     let v = vm.global("main", k).ok_or_else(|| format!("no global {}", k))?;
                     let root: Box<dyn std::any::Any> = match v {
